@@ -157,9 +157,28 @@ def _digest_list(chk, base, start, count, tier):
 
 
 # ---------------------------------------------------------------- main side
+def _start_coverage():
+    """Developer aid (bin/reach): line coverage of the code under test inside the forked
+    workers.  Off unless VERIF_COVERAGE names a directory; uses sys.monitoring so that it
+    does not collide with the line-level pre-emption tracer."""
+    d = os.environ.get('VERIF_COVERAGE')
+    if not d:
+        return None
+    os.environ.setdefault('COVERAGE_CORE', 'sysmon')
+    import coverage
+    cov = coverage.Coverage(data_file=os.path.join(d, 'cov'), data_suffix=True,
+                            include=[os.path.join(os.environ.get('VERIF_REPO_SRC', '/repo/src'), '*')])
+    cov.start()
+    return cov
+
+
 def _child_main(fn, arg, conn):
+    cov = _start_coverage()
     try:
         res = fn(arg)
+        if cov is not None:
+            cov.stop()
+            cov.save()
         conn.send(('ok', res))
     except BaseException:
         try:
